@@ -438,11 +438,23 @@ def gen_decl(rng, kind=None):
     elif r < 0.6:
         default, fixed = "dv", "fv"  # not a valid declaration; the mapper does not care
     tp = rng.choice(["string", "string", None])
+    enum = None
+    if rng.random() < 0.25:
+        # the type is a restriction of xs:string by enumeration (values that may collide after slugging);
+        # default / fixed is one of the members
+        enum = rng.choice(ENUM_SETS)
+        tp = "string"
+        default = rng.choice(enum) if default is not None else None
+        fixed = rng.choice(enum) if fixed is not None else None
     if kind == "attribute":
-        return {"kind": kind, "use": rng.choice([None, "optional", "required", "required", "prohibited"]), "default": default, "fixed": fixed, "type": tp,
-                "group": rng.random() < 0.3}
-    mn, mx = rng.choice([(1, 1), (0, 1), (0, MAXSIZE), (1, MAXSIZE), (2, 2), (0, 0), (1, 1), (0, 1)])
-    return {"kind": kind, "min": mn, "max": mx, "default": default, "fixed": fixed, "type": tp}
+        d = {"kind": kind, "use": rng.choice([None, "optional", "required", "required", "prohibited"]), "default": default, "fixed": fixed, "type": tp,
+             "group": rng.random() < 0.3}
+    else:
+        mn, mx = rng.choice([(1, 1), (0, 1), (0, MAXSIZE), (1, MAXSIZE), (2, 2), (0, 0), (1, 1), (0, 1)])
+        d = {"kind": kind, "min": mn, "max": mx, "default": default, "fixed": fixed, "type": tp}
+    if enum:
+        d["enum"] = enum
+    return d
 
 
 def decl_valid(d):
@@ -460,10 +472,17 @@ def decl_valid(d):
 
 
 def decls_xsd(decls, ns="urn:t"):
-    els, ats, grouped = [], [], []
+    els, ats, grouped, simple = [], [], [], []
     for i, d in enumerate(decls):
         extra = "".join(f' {k}="{_xml_attr(d[k])}"' for k in ("default", "fixed") if d[k] is not None)
         tp = ' type="xs:string"' if d["type"] == "string" else ""
+        if d.get("enum"):
+            tp = f' type="e{i}"'
+            simple.append(f' <xs:simpleType name="e{i}"><xs:restriction base="xs:string">'
+                          + "".join(f'<xs:enumeration value="{_xml_attr(v)}"/>' for v in d["enum"]) + "</xs:restriction></xs:simpleType>\n")
+            if d.get("enum_list"):
+                tp = f' type="l{i}"'
+                simple.append(f' <xs:simpleType name="l{i}"><xs:list itemType="e{i}"/></xs:simpleType>\n')
         if d["kind"] == "attribute":
             use = f' use="{d["use"]}"' if d["use"] else ""
             (grouped if d.get("group") else ats).append(f'   <xs:attribute name="d{i}"{tp}{use}{extra}/>\n')
@@ -478,7 +497,7 @@ def decls_xsd(decls, ns="urn:t"):
                   f' <xs:attributeGroup name="ag0">\n{grouped[0]}   <xs:attributeGroup ref="ag1"/>\n </xs:attributeGroup>\n')
         ats.append('   <xs:attributeGroup ref="ag0"/>\n')
     return (
-        f'<?xml version="1.0"?>\n<xs:schema xmlns:xs="http://www.w3.org/2001/XMLSchema"{tns}>\n{groups}'
+        f'<?xml version="1.0"?>\n<xs:schema xmlns:xs="http://www.w3.org/2001/XMLSchema"{tns}>\n{"".join(simple)}{groups}'
         f' <xs:element name="r">\n  <xs:complexType>\n   <xs:sequence>\n{"".join(els)}   </xs:sequence>\n{"".join(ats)}  </xs:complexType>\n </xs:element>\n</xs:schema>\n'
     )
 
@@ -931,7 +950,9 @@ def real_dtd_attr(decls):
 def dtd_attlist(decls):
     parts = []
     for i, d in enumerate(decls):
-        tp = {"enum": "(x|y|z)"}.get(d.get("type", "CDATA"), d.get("type", "CDATA"))
+        tp = d.get("type", "CDATA")
+        if tp == "enum":
+            tp = "(" + "|".join(d.get("values") or ["x", "y", "z"]) + ")"
         kw = {"required": "#REQUIRED", "implied": "#IMPLIED", "fixed": "#FIXED ", "none": ""}[d["default"]]
         val = f'"{d["value"]}"' if d["value"] is not None else ""
         parts.append(f"d{i} {tp} {kw}{val}")
@@ -940,13 +961,17 @@ def dtd_attlist(decls):
 
 def gen_dtd_attr_decl(rng, grammatical=True):
     k = rng.choice(["required", "implied", "fixed", "none"])
-    tp = rng.choice(["CDATA", "CDATA", "NMTOKEN", "enum"])
+    tp = rng.choice(["CDATA", "CDATA", "NMTOKEN", "enum", "enum"])
+    values = rng.choice(ENUM_SETS) if tp == "enum" else None
     v = None
     if k in ("fixed", "none") or (not grammatical and rng.random() < 0.3):
-        v = rng.choice(["x", "y"]) if tp == "enum" else rng.choice(["D", "x", "v1"])
+        v = rng.choice(values) if tp == "enum" else rng.choice(["D", "x", "v1"])
     if not grammatical and rng.random() < 0.2:
         v = None
-    return {"default": k, "value": v, "type": tp}
+    d = {"default": k, "value": v, "type": tp}
+    if values:
+        d["values"] = values
+    return d
 
 
 # --------------------------------------------------------------------------
@@ -1021,6 +1046,63 @@ def real_compound(sites):
         else:
             out.append({"plain": a.name})
     return out
+
+
+# --------------------------------------------------------------------------
+# enumerations whose values collide after slugging, and their defaults  (model: lean/XsdataModel/Gen/EnumDefault.lean)
+# --------------------------------------------------------------------------
+ENUM_SETS = [
+    ["x", "y", "z"],                 # no collision
+    ["on", "ON", "off"],             # case
+    ["A", "a"],
+    ["x-1", "x1"],                   # punctuation (x-1 -> X_1, x1 -> X1: distinct slugs, one alnum)
+    ["a.b", "a_b", "ab"],
+    ["a-b", "a.b", "a_b", "A-B"],
+    ["1", "2", "10"],                # leading digits (VALUE_ prefix)
+    ["value", "Value", "VALUE"],
+    ["x", "X", "x_1"],               # the index suffix itself collides
+    ["True", "true", "None"],        # python keywords / constants
+]
+
+
+def real_enum_members(values, qname="{urn:t}e"):
+    """the enumeration class of `values` after the real RenameDuplicateAttributes: (value, member attr name)"""
+    from xsdata.codegen.handlers import RenameDuplicateAttributes
+    from xsdata.codegen.models import Attr, AttrType, Class
+    from xsdata.models.enums import DataType, Tag
+
+    tp = AttrType(qname=str(DataType.STRING), native=True)
+    source = Class(qname=qname, tag=Tag.SIMPLE_TYPE, location="mem",
+                   attrs=[Attr(name=v, default=v, fixed=True, tag=Tag.ENUMERATION, types=[tp.clone()]) for v in values])
+    RenameDuplicateAttributes().process(source)
+    return source, [{"value": a.default, "name": a.name} for a in source.attrs]
+
+
+def real_enum_default(values, default, tokens=False):
+    """the real SanitizeAttributesDefaultValue.is_valid_enum_type on the renamed enumeration class, and the values
+    of the members the real Filters.field_default_enum / constant_name make of the placeholder"""
+    from xsdata.codegen.handlers import SanitizeAttributesDefaultValue
+    from xsdata.codegen.models import Attr, AttrType, Restrictions
+    from xsdata.formats.dataclass.filters import Filters
+    from xsdata.models.config import GeneratorConfig
+    from xsdata.models.enums import Tag
+    from xsdata.utils import namespaces
+
+    source, members = real_enum_members(values)
+    attr = Attr(name="x", tag=Tag.ATTRIBUTE, types=[AttrType(qname=source.qname)], default=default,
+                restrictions=Restrictions(min_occurs=0, max_occurs=1, tokens=True if tokens else None))
+    okk = SanitizeAttributesDefaultValue.is_valid_enum_type(source, attr)
+    if not okk:
+        return {"placeholder": None, "values": None}
+    assert attr.default.startswith("@enum@" + source.qname + "::")
+    names = attr.default.split("::", 1)[1].split("@")
+    f = Filters(GeneratorConfig())
+    cname = namespaces.local_name(source.qname)
+    consts = {f.constant_name(a.name, cname): a.default for a in source.attrs}
+    rendered = f.field_default_enum(attr)
+    refs = [f.constant_name(n, cname) for n in names]
+    assert all(r in rendered for r in refs)
+    return {"placeholder": names, "values": [consts.get(r) for r in refs]}
 
 
 # --------------------------------------------------------------------------
